@@ -1,6 +1,7 @@
 package proxy
 
 import (
+	"context"
 	"errors"
 	"fmt"
 	"log/slog"
@@ -321,6 +322,12 @@ func (f *fetcher) dedupFetch(req *http.Request, key cache.CacheKey, clientHd *he
 	if err != nil {
 		if errors.Is(err, ErrNotCacheable) {
 			slog.Debug("Request was not cacheable in singleflight, falling back to direct fetch", "url", req.URL)
+			return f.fetchDirectlyFromUpstream(req)
+		}
+		// The shared fetch runs with the request context of the client that started it. If
+		// that client went away, the others still get an answer of their own.
+		if shared && req.Context().Err() == nil && (errors.Is(err, context.Canceled) || errors.Is(err, context.DeadlineExceeded)) {
+			slog.Debug("Shared fetch was cancelled by another client, fetching upstream for this one", "url", req.URL)
 			return f.fetchDirectlyFromUpstream(req)
 		}
 		return fetchResult{}, err
